@@ -10,11 +10,13 @@ import (
 	"context"
 	"encoding/hex"
 	"fmt"
+	"math/rand"
 	"net"
 	"os"
 	"sort"
 	"strings"
 	"sync"
+	"sync/atomic"
 	"time"
 
 	//nolint:staticcheck // the P4Runtime stubs are built on the deprecated package
@@ -50,21 +52,22 @@ type Fault struct {
 type Server struct {
 	p4.UnimplementedP4RuntimeServer
 
-	mu       sync.Mutex
-	Info     *p4cfg.P4Info
-	tables   map[uint32]map[string]*p4.TableEntry
-	meters   map[uint32]map[int64]*p4.MeterConfig
-	counters map[uint32]map[int64]*p4.CounterData
-	log      []Update
-	rpcs     int
-	reads    int
-	pktOut   [][]byte
-	pktOutAt []time.Time
-	writeEnd time.Time // when the last Write RPC was answered
-	last     time.Time
-	streams  map[int]p4.P4Runtime_StreamChannelServer
-	nstream  int
-	arbs     int
+	mu              sync.Mutex
+	WriteDelayMaxNs int64 // > 0: every Write RPC is delayed by a random time below this many nanoseconds before it takes effect (atomic)
+	Info            *p4cfg.P4Info
+	tables          map[uint32]map[string]*p4.TableEntry
+	meters          map[uint32]map[int64]*p4.MeterConfig
+	counters        map[uint32]map[int64]*p4.CounterData
+	log             []Update
+	rpcs            int
+	reads           int
+	pktOut          [][]byte
+	pktOutAt        []time.Time
+	writeEnd        time.Time // when the last Write RPC was answered
+	last            time.Time
+	streams         map[int]p4.P4Runtime_StreamChannelServer
+	nstream         int
+	arbs            int
 
 	// FaultFn is consulted under the server lock for every RPC (idx = -1) and every update
 	// n: number of updates of the RPC
@@ -394,6 +397,12 @@ func KindOf(u *p4.Update) string {
 
 // Write implements the RPC.
 func (s *Server) Write(ctx context.Context, req *p4.WriteRequest) (*p4.WriteResponse, error) {
+	// the latency of a switch: the request is on its way for a while before it takes effect (concurrent phases: what the
+	// agent does meanwhile must not depend on a write that has not been answered yet)
+	if d := atomic.LoadInt64(&s.WriteDelayMaxNs); d > 0 {
+		time.Sleep(time.Duration(rand.Int63n(d)))
+	}
+
 	s.mu.Lock()
 	defer s.mu.Unlock()
 
